@@ -257,9 +257,10 @@ func parseAVTag(f *types.Var, tag string, v1 bool) (name string, omitempty, skip
 		switch p {
 		case "omitempty":
 			omitempty = true
-		case "":
-		default:
+		case "omitemptyelem", "nullempty", "nullemptyelem", "string", "unixtime", "stringset", "numberset", "binaryset":
 			panic(inconclusive{"dynamodbav tag option " + p + " is not modelled"})
+		default:
+			// the libraries compare option names exactly and ignore what they do not know (" omitempty" is not omitempty)
 		}
 	}
 	return name, omitempty, false
